@@ -26,10 +26,10 @@ CLAIMS = {
     'C07': ('full: finite-table theorems over the regenerated Gen/Tables.v (no kind dropped, dispatch, keys read subset of keys written, guards, waveform '
             'lookup) and C07_faithful (branch law <-> declarative component law for all 17 kinds), one branch per component, terminals, ground rule; '
             'every translator function of transformers.py regenerated and proved equal to the model (C07c)'),
-    'C08': ('partial: for all six waveforms and every phase the coefficients are proved to be the Fourier integrals of the translated time '
-            'functions (Coquelicot; classical-reals axioms), a/b/c algebra and lookup; orthogonality, closed-form mean squares, the exact '
-            'mean-square error of every truncated series, Bessel and monotone error for every N (C08d); the Parseval clause is reduced to one '
-            'numerical series limit per waveform, which is checked numerically, not proved'),
+    'C08': ('full on the model: for all six waveforms and every phase the coefficients are proved to be the Fourier integrals of the translated '
+            'time functions (Coquelicot; classical-reals axioms), a/b/c algebra and lookup; orthogonality, closed-form mean squares, the exact '
+            'mean-square error of every truncated series, Bessel (C08d); Basel and zeta(4) proved in the development, hence mean-square '
+            'convergence and Parseval for every waveform (C08e: C08_parseval_full_holds); float %, np.vectorize are outside the model'),
     'C09': ('partial: frequency list characterised exactly over any ordered field (sorted, duplicate-free, membership); KCL and superposition of the '
             'time functions by linearity, two-sided spectrum; "each once within the resolution" is REFUTED on the model (known finding); the same generic '
             'list function instantiated at binary64 (primitive floats) is run bit for bit against circuit.py, with the carrier-independent membership '
